@@ -203,19 +203,63 @@ def classify(txs, obs, cls, cnt):
     return v
 
 
+def residue_excuse(txs, msg):
+    """Why could decimal residue arise for the security named in a holding-short error?  Returns a tag:
+    'inexact-holding'      some holding of that security, walked in exact arithmetic, is not a <=28-digit decimal
+                            (e.g. 100 shares after UNSPLIT 3), so no decimal implementation can carry it exactly;
+    '30-day-match-across-such-a-split'  all holdings are exact decimals but a 30-day match spans a split whose
+                            ratio or reciprocal does not terminate (the look-ahead converts through the reciprocal);
+    'none'                 neither: nothing in the ledger explains a residue."""
+    from ..util import is_terminating
+    m = re.search(r"SELL (\S+) on", msg)
+    if not m:
+        return "none"
+    tk = m.group(1)
+    sub = [t for t in txs if t["ticker"].upper() == tk.upper()]
+    try:
+        model = hmrc.evaluate(sub)
+        bad = model["uncovered"].get(tk.upper())
+        if bad is not None:     # judge the covered prefix (the refusal came before the first uncovered date)
+            sub = [t for t in sub if pdate(t["date"]) < bad]
+            model = hmrc.evaluate(sub)
+    except Exception:
+        return "none"
+    days = model["days"].get(tk.upper(), [])
+    pos = ZERO
+    inexact = False
+    for day in days:
+        pos += day.A - day.S
+        for mlt in day.splits:
+            pos *= mlt
+            if not is_terminating(pos) or len(str(pos.numerator)) > 28:
+                inexact = True
+    if inexact:
+        return "inexact-holding"
+    if "ident" in model:
+        for d_ in model["ident"][tk.upper()]["disposals"]:
+            for l in d_["legs"]:
+                if l["rule"] == "BedAndBreakfast":
+                    for day in days:
+                        if d_["date"] <= day.date < l["acq"]:
+                            for mlt in day.splits:
+                                if not is_terminating(mlt) or not is_terminating(1 / mlt):
+                                    return "30-day-match-across-such-a-split"
+    return "none"
+
+
 def residue_class(txs, msg):
     """Narrow signature data for refusals of covered ledgers."""
     m = re.search(r"disposal of ([0-9.]+) shares exceeds holding of ([0-9.]+)", msg)
     if m:
         q, h = Fraction(m.group(1)), Fraction(m.group(2))
         if q > 0 and (q - h) < q * Fraction(1, 10 ** 15) and lc.nonterminating_split(txs):
-            return "holding-short-by-decimal-residue:nonterminating-split-ratio"
+            return "holding-short-by-decimal-residue:nonterminating-split-ratio:" + residue_excuse(txs, msg)
         return "holding-exceeded"
     m = re.search(r"exceeds holding: attempted ([0-9.]+), matched ([0-9.]+), unmatched ([0-9.]+)", msg)
     if m:
         q, u = Fraction(m.group(1)), Fraction(m.group(3))
         if q > 0 and u < q * Fraction(1, 10 ** 15) and lc.nonterminating_split(txs):
-            return "holding-short-by-decimal-residue:nonterminating-split-ratio"
+            return "holding-short-by-decimal-residue:nonterminating-split-ratio:" + residue_excuse(txs, msg)
         return "holding-exceeded"
     if "B&B reservation exceeds buy amount" in msg:
         return "bnb-reservation-exceeds-buy" + (":nonterminating-split-ratio" if lc.nonterminating_split(txs) else "")
